@@ -1,4 +1,4 @@
-"""C04 — Parallelism limit is respected and slots are conserved."""
+"""C04 — Each target runs at most once, after its dependencies."""
 import os
 import sys
 sys.path.insert(0, os.path.join(os.path.dirname(os.path.dirname(os.path.abspath(__file__))), "harness", "runner"))
@@ -6,9 +6,21 @@ import rcommon
 
 META = {
     "property_id": "C04",
-    "technique": "Coq invariant proofs over an interleaving model of runner/runner.go + trace acceptance of hook logs of the real runner",
-    "level_text": "TBD",
-    "level_note": "TBD",
+    "technique": "Coq invariant proofs over an interleaving model of runner/runner.go + trace acceptance of hook logs of the "
+                 "real runner by the model + black-box call counting",
+    "level_text": "Theorems (Coq, all dependency graphs incl. duplicates/failing/unknown targets, all schedules, all limits): a "
+                  "goroutine is created only by the atomic Idle->Running transition and at most once per label; LoadTarget, "
+                  "Evaluate and the body run at most once per label; a final status never changes; every non-cyclic result handed "
+                  "to a dependent equals the dependency's final status; a target continues past EvaluateTargets (without a cycle "
+                  "error) only when all its dependencies are final; Run's result is the root's final status. The model is tied "
+                  "to runner.go by replaying the hook logs of real runs through it (start.run only from Idle, wait.end only when "
+                  "the dependency is final and with its actual outcome, finishing statuses equal). Direct oracles: "
+                  "LoadTarget/Evaluate/body counts <= 1, dependency finished before the dependent continues, result error "
+                  "identical to the dependency's own error value, Run's error identical to the root's.",
+    "level_note": "Trusted: Coq kernel; the hook dispatcher; sync.Mutex/sync.Cond/sync.Map semantics (getTarget's LoadOrStore is "
+                  "modelled as label identity; a broken LoadOrStore shows up as two goroutines for one label in the log). "
+                  "The model covers dawn's usage (one EvaluateTargets call per target, target.go) — not arbitrary Engine clients. "
+                  "Schedules are sampled (seeded jitter), not enumerated.",
     "design_ref": "DESIGN.md §6 C04, Appendix B",
 }
 
@@ -17,5 +29,5 @@ SIZES = {"quick": (150, 2), "thorough": (3000, 12)}
 
 def run(ctx):
     rcommon.run_check(ctx, "C04", "Runner/Props_C04.v", SIZES,
-                      "C04 oracles: harness counter of targets inside LoadTarget/Evaluate but outside EvaluateTargets <= limit "
-                      "at all times; gate capacity = limit at quiescence; every logged gate.enter/gate.exit capacity equals the model's.")
+                      "C04 oracles: LoadTarget/Evaluate/body call counts <= 1 per label; a dependent continues only after its "
+                      "dependencies finished; the result handed over is the dependency's own error value; Run's result is the root's.")
